@@ -136,6 +136,20 @@ def generate(rng, tier):
             yield ["setslice", runs, s, e, new, rng.choice([n, n, n + 2, e, n + op_total(new)])]
         else:
             yield ["setitem", runs, s, new]
+    # 4a. the new value is the subject's OWN text (retyping a line over itself, a[:] = a.s): as a plain str, and as a
+    #     FmtStr of one differently formatted run; over the whole subject and over parts of it
+    for runs in rng.sample(lays, len(lays) if thorough else 60) + [canon.rand_runs(rng, maxruns=5, maxlen=4) for _ in range(60)]:
+        n = total(runs)
+        text = "".join(t for t, _ in runs)
+        if "\x1b" in text or "\x9b" in text:
+            continue
+        for new in (["str", text], ["fs", [[text, list(ATTS[3])]]]):
+            yield ["splice", runs, new, 0, n]
+            yield ["splice", runs, new, 0, None] if n else ["append", runs, new]
+            yield ["setslice", runs, 0, n, new, n]
+            if n > 1:
+                yield ["splice", runs, ["str", text[1:]], 1, n]
+                yield ["splice", runs, ["str", text[:-1]], 0, n - 1]
     # 4b. subjects one of whose runs holds raw terminal output as TEXT (what `f + some_str` makes: no parsing on that
     #     path): an escape sequence inside a run is ordinary characters for every operation on f
     raw = [[["ab", list(ATTS[0])], ["x\x1b[31my\x1b[0m", list(ATTS[1])], ["cd", list(ATTS[2])]],
